@@ -246,7 +246,10 @@ func body(s *simrt.Sim, tier string) {
 			return
 		}
 		w := "MAC and segments replaced by ones computed under " + keyDesc
-		switch s.Choose(4, "forgevault") {
+		switch s.Choose(5, "forgevault") {
+		case 4:
+			v.UnwrapWiped = true
+			w += "; unwrap fails and returns its wiped 32-byte buffer with the error"
 		case 1:
 			v.UnwrapErr = true
 			w += "; unwrap fails"
@@ -274,6 +277,9 @@ func body(s *simrt.Sim, tier string) {
 		if s.Choose(2, "short") == 0 {
 			v.UnwrapShort = true
 			what = append(what, "unwrap returns a short key")
+		} else if s.Choose(2, "wiped") == 0 {
+			v.UnwrapWiped = true
+			what = append(what, "unwrap fails and returns its wiped 32-byte buffer with the error")
 		} else {
 			v.UnwrapErr = true
 			what = append(what, "unwrap fails")
